@@ -71,7 +71,7 @@ type replayer struct {
 	logging int32
 }
 
-const stepTimeout = 3 * time.Second
+const stepTimeout = 6 * time.Second
 
 func startIndex(p string) int {
 	if p == "s2" {
@@ -306,7 +306,7 @@ func (r *replayer) spawnClose() {
 		}()
 		// a goroutine that has signalled its WaitGroup may need a moment to leave the scheduler's books
 		alive := libGoroutinesOf(r.cli)
-		for i := 0; i < 50 && len(alive) > 0; i++ {
+		for i := 0; i < 500 && len(alive) > 0; i++ {
 			time.Sleep(time.Millisecond)
 			alive = libGoroutinesOf(r.cli)
 		}
